@@ -143,7 +143,11 @@ unsafe fn level_swap<M: Manager>(
                         children
                     }
                     node => {
-                        debug_assert!(node.level() > lower_no);
+                        // Level numbers inside nodes are updated lazily (they are
+                        // `_pre` numbers), so we cannot compare with `lower_no`.
+                        debug_assert!(
+                            node.level() != upper_no_pre && node.level() != lower_no_pre
+                        );
                         // The child is below the lower level, so the cofactors
                         // are determined by the diagram rules (see below)
                         (0..M::InnerNode::ARITY).map(|_| c.borrowed()).collect()
